@@ -388,6 +388,8 @@ def run_one(spec: dict) -> dict:
             w.probe("tsql_split_mode")
         if run.get("silent"):
             w.probe("silent_mode")
+        if run["dialect"] not in ("ansi", "non-validating", "tsql"):
+            w.probe("dialect_zoo")
         fired_at = None
         out = []
         try:
@@ -532,9 +534,42 @@ def gen_tsql_run(g, tag, provider):
             "cfg": {"TSQL_NO_SEMICOLON": True}, "accessors": accessors}
 
 
+ZOO = [
+    # dialect-specific statement forms over the shared universe (other extractors, multi-target inserts, paths ...)
+    ("sparksql", "INSERT INTO {t} TABLE {s}"), ("mysql", "INSERT INTO {t} TABLE {s}"),
+    ("snowflake", "INSERT ALL INTO {t} INTO {u} SELECT {c}, {c} FROM {s}"), ("oracle", "INSERT ALL INTO {t} INTO {u} SELECT {c} FROM {s}"),
+    ("sparksql", "INSERT OVERWRITE TABLE {t} SELECT * FROM {s}"), ("hive", "INSERT OVERWRITE TABLE {t} SELECT {c} AS c_{tag}_z FROM {s}"),
+    ("postgres", "SELECT {c} AS c_{tag}_p INTO {t} FROM {s}"), ("tsql", "SELECT {c} AS c_{tag}_q INTO {t} FROM {s}"),
+    ("bigquery", "MERGE {t} tg USING {s} sr ON tg.k = sr.{c} WHEN MATCHED THEN UPDATE SET v = sr.{c}"),
+    ("snowflake", "CREATE TABLE {t} CLONE {s}"), ("redshift", "COPY {t} FROM 's3://bucket/{tag}' IAM_ROLE 'r'"),
+    ("databricks", "INSERT INTO {t} SELECT * FROM {s}"), ("hive", "ALTER TABLE {t} EXCHANGE PARTITION (p='1') WITH TABLE {u}"),
+    ("snowflake", "ALTER TABLE {t} SWAP WITH {u}"), ("mysql", "RENAME TABLE {t} TO {u}"), ("sparksql", "CACHE TABLE {s}"),
+    ("vertica", "SELECT swap_partitions_between_tables('{s}', 'a', 'b', '{t}')"),
+]
+
+
+def gen_zoo_run(g, tag, provider):
+    dialect = g.choice(sorted({d for d, _ in ZOO}))
+    forms = [f for d, f in ZOO if d == dialect]
+    tables = sorted(BASE_META) + UNIVERSE
+    stmts = []
+    for _ in range(g.choice([1, 2, 3])):
+        s_ = g.choice(tables)
+        t_, u_ = g.sample([x for x in tables if x != s_], 2)
+        c_ = g.choice(BASE_META.get(s_) or [f"u_{tag}"])
+        stmts.append(g.choice(forms).format(t=t_, u=u_, s=s_, c=c_, tag=tag))
+    if g.random() < 0.5:
+        src = g.choice(tables)
+        stmts.append(f"INSERT INTO {g.choice(UNIVERSE)} SELECT * FROM {src}")
+    return {"tag": tag, "script": stmts, "dialect": dialect, "provider": provider, "faults": [], "silent": False,
+            "accessors": g.sample(ACC_POOL, 3)}
+
+
 def gen_run(g, tag, provider, allow_faults=True, legacy_p=0.5, special=True):
     if special and g.random() < 0.1:
         return gen_tsql_run(g, tag, provider)
+    if special and g.random() < 0.12:
+        return gen_zoo_run(g, tag, provider)
     dialect = "non-validating" if g.random() < legacy_p else "ansi"
     sg = ScriptGen(g, tag)
     script = sg.script(g.choice([2, 3, 3, 4, 5]))
@@ -684,7 +719,7 @@ def plan(seed: int, tier: str) -> list[dict]:
         sw = [s for i, s in enumerate(sw)]
     for i in range(0, len(sw), 6):
         units.append({"key": {"hash_seed": 1 + (i // 6) % 4}, "specs": sw[i:i + 6], "wall_s": 240.0})
-    nruns = {"quick": 900, "thorough": 16000}[tier]
+    nruns = {"quick": 660, "thorough": 16000}[tier]
     block = 3
     for b in range(nruns // block):
         hs = master.randrange(8)
